@@ -150,6 +150,15 @@ func c10RunTx(app *exocoreapp.ExocoreApp, ante sdk.AnteHandler, ctx sdk.Context,
 	}()
 	// as baseapp.getContextForTx does for DeliverTx
 	ctx = ctx.WithTxBytes(txBytes).WithConsensusParams(app.GetConsensusParams(ctx)).WithBlockGasMeter(sdk.NewInfiniteGasMeter()).WithGasMeter(sdk.NewInfiniteGasMeter())
+	// baseapp.runTx: validateBasicTxMsgs before the ante handler
+	if len(tx.GetMsgs()) == 0 {
+		return "ante", fmt.Errorf("must contain at least one message")
+	}
+	for _, m := range tx.GetMsgs() {
+		if err := m.ValidateBasic(); err != nil {
+			return "ante", err
+		}
+	}
 	anteCtx, write := ctx.CacheContext()
 	newCtx, err := ante(anteCtx, tx, false)
 	if err != nil {
